@@ -506,6 +506,11 @@ def run(rep):
     obs = pmap("props.c03", "worker", cfgs, rep.tier)
     icfg = [dict(W=1, g=1), dict(W=2, g=1), dict(W=2, g=3), dict(W=3, g=2)] + ([dict(W=4, g=2), dict(W=1, g=3)] if rep.tier == "thorough" else [])
     obs += pmap("props.c03", "worker_inputstate", icfg, rep.tier)
+    # every rule above is decided from a state satisfying INV; that the real reset()/_reset() re-establish it at the start of every episode (no announced delay,
+    # message, expectation or counter of the previous episode left in any queue -- e.g. a stale q_zip_delay entry pairs new payloads with old receive times)
+    # is the reset-residue obligation shared with C02
+    rep.encode(A._AsyncNodeWrapper._reset, A._AsyncConnectionWrapper.reset)
+    obs += pmap("props.c02", "worker_reset", [dict(blocking=False), dict(blocking=True)], rep.tier, serial=True)
     rep.paths = sum((o.get("detail") or {}).get("stats", {}).get("paths", 0) for o in obs if isinstance(o.get("detail"), dict))
     rep.add_all(obs)
 
